@@ -351,3 +351,129 @@ def wire_terms(block, res, names=None):
         if w.name in res.trace and (names is None or w.name in names):
             out[w.name] = [to_bv(v, w.bitwidth) for v in res.trace[w.name]]
     return out
+
+
+# ------------------------------------------------------------------------------------------
+# CompiledSimulation: the real constructor runs (gcc build), the C text written by _create_code is captured and
+# given meaning by vf/ctrans.py; the real run() (input validation, limb packing, unpacking into the trace) executes
+# symbolically over list-backed buffers.
+
+class _ArrayFactory(object):
+    def __init__(self, n):
+        self.n = n
+
+    def __call__(self):
+        return [0] * self.n
+
+
+class _CUInt64(object):
+    def __mul__(self, n):
+        return _ArrayFactory(n)
+
+
+class _CtypesShim(object):
+    """stands in for the name `ctypes` inside pyrtl.compilesim while run() executes symbolically"""
+    c_uint64 = _CUInt64()
+
+    def __getattr__(self, name):
+        import ctypes
+        return getattr(ctypes, name)
+
+
+class CompiledModel(object):
+    def __init__(self, block, regvals=None, memvals=None, default_value=0, tracked=None):
+        from pyrtl import compilesim as cs
+        from . import ctrans
+        self.block = block
+        text = []
+        orig = cs.CompiledSimulation._create_code
+
+        def tee(self_, write):
+            def w2(s):
+                text.append(s)
+                write(s)
+            return orig(self_, w2)
+        cs.CompiledSimulation._create_code = tee
+        try:
+            rmap = {}
+            for r in block.wirevector_subset(pyrtl.Register):
+                if regvals and r.name in regvals:
+                    rmap[r] = regvals[r.name]
+            mmap = {}
+            for mid, m in mems_of(block).items():
+                if memvals and m.name in memvals:
+                    mmap[default_memkey(block)(m) if False else m] = dict(memvals[m.name])
+            tracked = tracked if tracked is not None else sorted(block.wirevector_subset((pyrtl.Input, pyrtl.Output)), key=lambda w: w.name)
+            self.tracked = tracked
+            self.sim = cs.CompiledSimulation(tracer=pyrtl.SimulationTrace(wires_to_track=tracked, block=block),
+                                             register_value_map=rmap, memory_value_map=mmap, default_value=default_value,
+                                             block=block)
+        finally:
+            cs.CompiledSimulation._create_code = orig
+        self.text = '\n'.join(text)
+        self.model = ctrans.Model(self.text)
+        self.state = None
+
+    def reset(self):
+        self.state = self.model.initial_state()
+        self.model.ub = []
+        sim = self.sim
+        sim.tracer.trace.__init__(sim.tracer.wires_to_track)
+
+    def crun(self, steps, ibuf, obuf):
+        sim = self.sim
+        for n in range(steps):
+            ins = [to_bv(ibuf[n * sim._ibufsz + i], 64) for i in range(sim._ibufsz)]
+            outs, self.state = self.model.step(self.state, ins, sim._obufsz)
+            for i, o in enumerate(outs):
+                obuf[n * sim._obufsz + i] = SymInt.mk(o, False)
+
+    def mem_array(self, mem):
+        """(z3 array BV64 -> BV(64*limbs), limbs) of a MemBlock in the model state"""
+        vn = self.sim.varname[mem]
+        return self.state['mem'][vn], self.model.mems[vn]
+
+
+def run_compiled(cm, K, vars_, assumptions=(), inputs_override=None, max_paths=64, one_call=False):
+    """symbolically run the real CompiledSimulation.run()/step() for K cycles on a CompiledModel"""
+    from pyrtl import compilesim as cs
+    block = cm.block
+    inputs = sorted(block.wirevector_subset(pyrtl.Input), key=lambda w: w.name)
+
+    def body():
+        cm.reset()
+        sim = cm.sim
+        saved = sim._crun
+        sim._crun = lambda steps, ibuf, obuf: cm.crun(steps, ibuf, obuf)   # a plain function accepts the .argtypes attribute
+        try:
+            with sym.stubs(cs, ctypes=_CtypesShim(), int=sym.sym_int):
+                steps = []
+                for t in range(K):
+                    if inputs_override is not None:
+                        ins = inputs_override(t)
+                    else:
+                        ins = {w.name: SymInt.mk(vars_.inp(w.name, t, w.bitwidth), False) for w in inputs}
+                    if one_call:
+                        steps.append(ins)
+                    else:
+                        sim.step(ins)
+                if one_call:
+                    sim.run(steps)
+        finally:
+            sim._crun = saved
+        trace = {w.name: list(sim.tracer.trace[w.name]) for w in sim.tracer.wires_to_track}
+        return {'trace': trace, 'state': cm.state, 'ub': list(cm.model.ub)}
+    paths = explore(body, assumptions=assumptions, max_paths=max_paths)
+    out = []
+    for p in paths:
+        r = SimResult()
+        r.pc, r.exc = p.pc, p.exc
+        r.trace = p.result['trace'] if p.exc is None else {}
+        r.extra = p.result if p.exc is None else None
+        r.mems, r.regs_next = {}, {}
+        if p.exc is None:
+            for mid, m in mems_of(block).items():
+                vn = cm.sim.varname[m]
+                r.mems[m.name] = (p.result['state']['mem'][vn], cm.model.mems[vn])
+        out.append(r)
+    return out
